@@ -65,6 +65,8 @@ def carrier_api():
         return dict(name=name, **{'in': inp, 'out': out}, http=http, sigs=list(sigs), cs=cs, ss=ss)
 
     methods = [
+        # declared FIRST: a method whose request comes from a dependency package must not influence how later methods are rendered
+        m('CheckDep', 'check', out='.other.dep.v1.Dep', sigs=['name,tags,kind'], inp='.other.dep.v1.DepReq'),
         m('GetThing', 'get', sigs=['name,count']),
         m('DeleteThing', 'delete', out='google.protobuf.Empty', sigs=['name']),
         m('UpdateThing', 'update', sigs=['inner.name,tags', 'labels,kind,class,flag,opt_request_id']),
@@ -76,7 +78,6 @@ def carrier_api():
         m('WatchThings', 'watch', sigs=['name'], ss=True),
         m('UploadThings', 'upload', cs=True),
         m('ChatThings', 'chat', cs=True, ss=True),
-        m('CheckDep', 'check', out='.other.dep.v1.Dep', sigs=['name,tags,kind'], inp='.other.dep.v1.DepReq'),
     ]
     main = dict(name='acme/call/v1/things.proto', package=PKG,
                 enums=[dict(name='Kind', values=['KIND_UNSPECIFIED', 'ALPHA', 'BETA'])],
